@@ -80,28 +80,47 @@ Theorem C13_params_objects : forall defs r, from_params defs = Some r ->
 Proof. exact params_objects. Qed.
 Print Assumptions C13_params_objects.
 
-(* the executed sequence: __post_init__ of every definition in order (each with its own fields
-   set), the distinct pre-tasks in definition order, the init tasks of the last definition,
-   the body *)
+(* from_params = the loader with fixes/C13-1.diff (each lightweight task once); from_params_listed = the
+   loader before it (every ENTRY of the init-task list is executed).
+   inits true defs last = the init tasks of the last definition, first occurrences, without those that
+   are pre-tasks.  The executed sequence: __post_init__ of every definition in order (each with its
+   own fields set), the distinct pre-tasks in definition order, these init tasks, the body          *)
 Theorem C13_init_after_pre_before_body : forall defs r, from_params defs = Some r ->
   exists front last, defs = front ++ [last] /\
     r_log r = map (fun d => PostInit (d_id d) (map fst (d_fields d))) defs
-              ++ map Execute (pretasks defs) ++ map Execute (d_init last) ++ [Body (d_id last)] /\
+              ++ map Execute (pretasks defs) ++ map Execute (inits true defs last) ++ [Body (d_id last)] /\
     NoDup (pretasks defs) /\
     (forall p, In p (pretasks defs) <-> exists d, In d defs /\ In p (d_pre d)) /\
-    execs (r_log r) = pretasks defs ++ d_init last /\
-    posts (r_log r) = map d_id defs.
+    execs (r_log r) = pretasks defs ++ inits true defs last /\
+    posts (r_log r) = map d_id defs /\
+    NoDup (inits true defs last) /\
+    (forall p, In p (inits true defs last) <-> In p (d_init last) /\ ~ In p (pretasks defs)).
 Proof. exact init_after_pre_before_body. Qed.
 Print Assumptions C13_init_after_pre_before_body.
 
-(* exactly once over the whole run when the init tasks are pairwise distinct and none is also
-   attached as a pre-task (otherwise: Instance_lemmas.init_listed_twice_runs_twice)          *)
-Theorem C13_params_each_once : forall defs r front last, from_params defs = Some r ->
+(* exactly once over the whole run, without hypothesis: every lightweight task listed as pre-task by some
+   definition or as init task by the last one is executed, and none twice                          *)
+Theorem C13_params_each_once : forall defs r, from_params defs = Some r ->
+  NoDup (execs (r_log r)) /\
+  exists front last, defs = front ++ [last] /\
+    forall p, In p (execs (r_log r)) <-> (In p (d_init last) \/ exists d, In d defs /\ In p (d_pre d)).
+Proof. exact params_each_once. Qed.
+Print Assumptions C13_params_each_once.
+
+(* the loader before the repair: an init task listed twice, or also attached as a pre-task, runs twice;
+   exactly once only when the init tasks are pairwise distinct and none is also a pre-task          *)
+Theorem C13_init_twice_refuted :
+  exists defs r, from_params_listed defs = Some r /\ ~ NoDup (execs (r_log r)) /\
+    exists r', from_params defs = Some r' /\ execs (r_log r') = [1; 2].
+Proof. exact init_twice_refuted. Qed.
+Print Assumptions C13_init_twice_refuted.
+
+Theorem C13_params_each_once_listed : forall defs r front last, from_params_listed defs = Some r ->
   defs = front ++ [last] -> NoDup (d_init last) ->
   (forall p, In p (d_init last) -> ~ In p (pretasks defs)) ->
   NoDup (execs (r_log r)).
-Proof. exact params_each_once. Qed.
-Print Assumptions C13_params_each_once.
+Proof. exact params_each_once_listed. Qed.
+Print Assumptions C13_params_each_once_listed.
 
 (* the parameter file of a graph: loading it answers, with exactly one object per configuration
    reachable from the task (values, task, pre-tasks, init tasks), the task's object returned *)
